@@ -71,19 +71,6 @@ Proof.
   rewrite Ho. pose proof (Z.quot_pos (- n) (Zpos d) ltac:(lia) ltac:(lia)). lia.
 Qed.
 
-Lemma qtrunc_lower s (i : Z) : (0 <= i)%Z -> inject_Z i <= s -> (i <= qtrunc s)%Z.
-Proof.
-  intros Hi Hlo. rewrite qtrunc_nonneg.
-  - rewrite <- (Qfloor_Z i). now apply Qfloor_resp_le.
-  - eapply Qle_trans; [|exact Hlo]. now apply inject_Z_nonneg.
-Qed.
-
-Lemma qtrunc_upper s (i : Z) : 0 <= s -> s < inject_Z i -> (qtrunc s < i)%Z.
-Proof.
-  intros H0 Hhi. rewrite qtrunc_nonneg by assumption.
-  rewrite Zlt_Qlt. eapply Qle_lt_trans; [apply Qfloor_le|exact Hhi].
-Qed.
-
 (* the quotient (t - t0)/dt against integers *)
 Lemma quot_ge (t t0 dt : Q) (i : Z) : 0 < dt -> t0 + inject_Z i * dt <= t -> inject_Z i <= (t - t0) / dt.
 Proof.
@@ -112,29 +99,68 @@ Qed.
 Lemma inject_Z_plus1 i : inject_Z (i + 1) == inject_Z i + 1.
 Proof. rewrite inject_Z_plus. reflexivity. Qed.
 
-(* idx_raw on a quotient inside window i (0 <= i < N) is i, for the code as it is (N < 2^63) and for the repair *)
-Lemma idx_raw_window fixed N s i :
-  (0 <= i < N)%Z -> (N <= two63)%Z -> inject_Z i <= s -> s < inject_Z (i + 1) -> idx_raw fixed N s = i.
+(* truncation toward zero is bracketed by integer bounds of either sign *)
+Lemma qtrunc_ge s (i : Z) : inject_Z i <= s -> (i <= qtrunc s)%Z.
 Proof.
-  intros Hi HN Hlo Hhi. unfold idx_raw. destruct fixed.
-  - destruct (qclamp_cases s (-1) (inject_Z N)) as [[H1 _]|[[_ [H2 _]]|[_ [_ ->]]]].
-    + exfalso. assert (0 <= inject_Z i) by (apply inject_Z_nonneg; lia). lra.
-    + exfalso. assert (inject_Z (i + 1) <= inject_Z N) by (rewrite <- Zle_Qle; lia). lra.
-    + apply qtrunc_window; [lia|assumption|assumption].
+  intro H. unfold qtrunc. destruct s as [n d]. cbn [Qnum Qden].
+  unfold Qle in H. cbn in H.
+  apply Z.quot_le_lower_bound; lia.
+Qed.
+Lemma qtrunc_le s (i : Z) : s <= inject_Z i -> (qtrunc s <= i)%Z.
+Proof.
+  intro H. unfold qtrunc. destruct s as [n d]. cbn [Qnum Qden].
+  unfold Qle in H. cbn in H.
+  apply Z.quot_le_upper_bound; lia.
+Qed.
+
+(* bspline_impl.hpp:58-59: the operand of the cast lies in [-1, N] whatever the quotient is ... *)
+Lemma clamped_trunc_range N s :
+  (0 <= N)%Z -> (-1 <= qtrunc (qclamp s (-1) (inject_Z N)) <= N)%Z.
+Proof.
+  intro HN.
+  assert (Hlh : -1 <= inject_Z N) by (assert (0 <= inject_Z N) by (now apply inject_Z_nonneg); lra).
+  destruct (qclamp_range s (-1) (inject_Z N) Hlh) as [Hlo Hhi].
+  split; [apply qtrunc_ge; exact Hlo|apply qtrunc_le; exact Hhi].
+Qed.
+
+(* ... hence the conversion is defined (no out-of-range operand) for every control-point count below 2^63 *)
+Lemma idx_raw_no_overflow N s :
+  (0 <= N < two63)%Z -> idx_raw N s = qtrunc (qclamp s (-1) (inject_Z N)).
+Proof.
+  intro HN. unfold idx_raw. apply cast64_id.
+  pose proof (clamped_trunc_range N s ltac:(lia)). unfold two63 in *. lia.
+Qed.
+
+Lemma cast_defined N s :
+  (0 <= N < two63)%Z ->
+  (- two63 <= qtrunc (qclamp s (-1) (inject_Z N)) < two63)%Z /\ idx_raw N s = qtrunc (qclamp s (-1) (inject_Z N)).
+Proof.
+  intro HN. split; [|now apply idx_raw_no_overflow].
+  pose proof (clamped_trunc_range N s ltac:(lia)). unfold two63 in *. lia.
+Qed.
+
+(* idx_raw on a quotient inside window i (0 <= i < N) is i *)
+Lemma idx_raw_window N s i :
+  (0 <= i < N)%Z -> (N <= two63)%Z -> inject_Z i <= s -> s < inject_Z (i + 1) -> idx_raw N s = i.
+Proof.
+  intros Hi HN Hlo Hhi. unfold idx_raw.
+  destruct (qclamp_cases s (-1) (inject_Z N)) as [[H1 _]|[[_ [H2 _]]|[_ [_ ->]]]].
+  - exfalso. assert (0 <= inject_Z i) by (apply inject_Z_nonneg; lia). lra.
+  - exfalso. assert (inject_Z (i + 1) <= inject_Z N) by (rewrite <- Zle_Qle; lia). lra.
   - rewrite (qtrunc_window s i); [|lia|assumption|assumption]. apply cast64_id. unfold two63 in *. lia.
 Qed.
 
 (* ------------------------------------------------------------------ property theorems *)
 
 (* window_spec: inside knot interval i (0 <= i <= N-K-1) the code selects window i and the local parameter *)
-Theorem window_spec fixed K N t0 dt t i :
+Theorem window_spec K N t0 dt t i :
   0 < dt -> (0 <= K)%Z -> (N <= two63)%Z -> (0 <= i <= N - K - 1)%Z ->
   t0 + inject_Z i * dt <= t -> t < t0 + inject_Z (i + 1) * dt ->
-  bs_select fixed K N t0 dt t = (i, Qred ((t - t0 - inject_Z i * dt) / dt))
+  bs_select K N t0 dt t = (i, Qred ((t - t0 - inject_Z i * dt) / dt))
   /\ 0 <= (t - t0 - inject_Z i * dt) / dt < 1.
 Proof.
   intros Hdt HK HN Hi Hlo Hhi.
-  assert (Hraw : idx_raw fixed N ((t - t0) / dt) = i).
+  assert (Hraw : idx_raw N ((t - t0) / dt) = i).
   { apply idx_raw_window; [lia|assumption|now apply quot_ge|now apply quot_lt]. }
   assert (Hu0 : 0 <= (t - t0 - inject_Z i * dt) / dt).
   { apply Qle_shift_div_l; [assumption|]. lra. }
@@ -150,37 +176,39 @@ Proof.
 Qed.
 
 (* at a knot t0 + i dt (0 <= i <= N-K-1) the right-hand window is selected with u = 0 exactly *)
-Theorem knot_select fixed K N t0 dt t i :
+Theorem knot_select K N t0 dt t i :
   0 < dt -> (0 <= K)%Z -> (N <= two63)%Z -> (0 <= i <= N - K - 1)%Z ->
   t == t0 + inject_Z i * dt ->
-  bs_select fixed K N t0 dt t = (i, 0).
+  bs_select K N t0 dt t = (i, 0).
 Proof.
   intros Hdt HK HN Hi Ht.
-  destruct (window_spec fixed K N t0 dt t i) as [-> _]; try assumption.
+  destruct (window_spec K N t0 dt t i) as [-> _]; try assumption.
   - lra.
   - rewrite inject_Z_plus1. lra.
   - f_equal. change 0 with (Qred 0). apply Qred_complete. rewrite Ht. field. lra.
 Qed.
 
-(* clamp_low: before t_min the code evaluates window 0 at u = 0 (the start value) - both variants, all t *)
-Theorem clamp_low fixed K N t0 dt t :
+(* clamp_low: before t_min the code evaluates window 0 at u = 0 (the start value) - all t, incl. the quotient in
+   (-1, 0) that truncates to 0 and goes through the third branch, and quotients below -2^63 (clamped to -1) *)
+Theorem clamp_low K N t0 dt t :
   0 < dt -> (0 <= K)%Z -> (K + 1 <= N)%Z -> t < bs_tmin t0 ->
-  bs_select fixed K N t0 dt t = (0%Z, 0).
+  bs_select K N t0 dt t = (0%Z, 0).
 Proof.
   unfold bs_tmin. intros Hdt HK HN Ht.
   assert (Hs : (t - t0) / dt < 0).
   { apply Qlt_shift_div_r; [assumption|]. lra. }
-  assert (Hraw : (idx_raw fixed N ((t - t0) / dt) <= 0)%Z).
-  { unfold idx_raw. destruct fixed.
-    - destruct (qclamp_cases ((t - t0) / dt) (-1) (inject_Z N)) as [[_ ->]|[[_ [H2 _]]|[_ [_ ->]]]].
-      + vm_compute. discriminate.
-      + exfalso. assert (0 <= inject_Z N) by (apply inject_Z_nonneg; lia). lra.
-      + now apply qtrunc_neg.
-    - pose proof (qtrunc_neg _ Hs).
-      destruct (cast64_cases (qtrunc ((t - t0) / dt))) as [->|[-> _]]; [assumption|]. unfold two63. lia. }
+  assert (Hraw : (idx_raw N ((t - t0) / dt) <= 0)%Z).
+  { unfold idx_raw.
+    assert (Hq : (qtrunc (qclamp ((t - t0) / dt) (-1) (inject_Z N)) <= 0)%Z).
+    { destruct (qclamp_cases ((t - t0) / dt) (-1) (inject_Z N)) as [[_ ->]|[[_ [H2 _]]|[_ [_ ->]]]].
+      - vm_compute. discriminate.
+      - exfalso. assert (0 <= inject_Z N) by (apply inject_Z_nonneg; lia). lra.
+      - now apply qtrunc_neg. }
+    destruct (cast64_cases (qtrunc (qclamp ((t - t0) / dt) (-1) (inject_Z N)))) as [->|[-> _]]; [assumption|].
+    unfold two63. lia. }
   unfold bs_select.
-  destruct (Z.ltb_spec (idx_raw fixed N ((t - t0) / dt)) 0) as [Hneg|Hnn]; [reflexivity|].
-  assert (Hz : idx_raw fixed N ((t - t0) / dt) = 0%Z) by lia. rewrite Hz.
+  destruct (Z.ltb_spec (idx_raw N ((t - t0) / dt)) 0) as [Hneg|Hnn]; [reflexivity|].
+  assert (Hz : idx_raw N ((t - t0) / dt) = 0%Z) by lia. rewrite Hz.
   destruct (Z.ltb_spec N (0 + (K + 1))); [lia|].
   f_equal.
   destruct (qclamp_cases ((t - t0 - inject_Z 0 * dt) / dt) 0 1) as [[_ ->]|[[H1 _]|[H1 _]]]; [reflexivity| |].
@@ -188,67 +216,43 @@ Proof.
   - exfalso. assert ((t - t0 - inject_Z 0 * dt) / dt == (t - t0) / dt) by (field; lra). lra.
 Qed.
 
-(* clamp_high, repaired code: at and after t_max the code evaluates the last window at u = 1, for ALL t *)
-Theorem clamp_high_fixed K N t0 dt t :
-  0 < dt -> (0 <= K)%Z -> (K + 1 <= N)%Z -> bs_tmax K N t0 dt <= t ->
-  bs_select true K N t0 dt t = ((N - K - 1)%Z, 1).
+(* clamp_high: at and after t_max the code evaluates the last window at u = 1 (the end value), for ALL t - however
+   large the quotient (t - t0)/dt is.  N < 2^63 is a bound on the control-point COUNT (a std::vector size that l.66
+   itself converts to int64_t), not on t. *)
+Theorem clamp_high K N t0 dt t :
+  0 < dt -> (0 <= K)%Z -> (K + 1 <= N)%Z -> (N < two63)%Z -> bs_tmax K N t0 dt <= t ->
+  bs_select K N t0 dt t = ((N - K - 1)%Z, 1).
 Proof.
-  unfold bs_tmax. intros Hdt HK HN Ht.
+  unfold bs_tmax. intros Hdt HK HN HN63 Ht.
   assert (Hs : inject_Z (N - K) <= (t - t0) / dt) by now apply quot_ge.
   assert (H0 : 0 <= inject_Z (N - K)) by (apply inject_Z_nonneg; lia).
   assert (HNK : inject_Z (N - K) <= inject_Z N) by (rewrite <- Zle_Qle; lia).
-  assert (Hraw : (N - K <= idx_raw true N ((t - t0) / dt))%Z).
-  { unfold idx_raw.
+  assert (Hraw : (N - K <= idx_raw N ((t - t0) / dt))%Z).
+  { rewrite idx_raw_no_overflow by lia.
     destruct (qclamp_cases ((t - t0) / dt) (-1) (inject_Z N)) as [[H1 _]|[[_ [_ ->]]|[_ [_ ->]]]].
     - exfalso. lra.
-    - apply qtrunc_lower; [lia|assumption].
-    - apply qtrunc_lower; [lia|assumption]. }
+    - apply qtrunc_ge; assumption.
+    - apply qtrunc_ge; assumption. }
   unfold bs_select.
-  destruct (Z.ltb_spec (idx_raw true N ((t - t0) / dt)) 0); [lia|].
-  destruct (Z.ltb_spec N (idx_raw true N ((t - t0) / dt) + (K + 1))); [reflexivity|lia].
+  destruct (Z.ltb_spec (idx_raw N ((t - t0) / dt)) 0); [lia|].
+  destruct (Z.ltb_spec N (idx_raw N ((t - t0) / dt) + (K + 1))); [reflexivity|lia].
 Qed.
 
-(* clamp_high, code as it is: holds as long as the quotient fits int64 *)
-Theorem clamp_high_partial K N t0 dt t :
-  0 < dt -> (0 <= K)%Z -> (K + 1 <= N)%Z -> bs_tmax K N t0 dt <= t ->
-  (t - t0) / dt < inject_Z two63 ->
-  bs_select false K N t0 dt t = ((N - K - 1)%Z, 1).
-Proof.
-  unfold bs_tmax. intros Hdt HK HN Ht Hfit.
-  assert (Hs : inject_Z (N - K) <= (t - t0) / dt) by now apply quot_ge.
-  assert (H0 : 0 <= inject_Z (N - K)) by (apply inject_Z_nonneg; lia).
-  assert (Hraw : (N - K <= idx_raw false N ((t - t0) / dt))%Z).
-  { unfold idx_raw. rewrite cast64_id.
-    - apply qtrunc_lower; [lia|assumption].
-    - split.
-      + pose proof (qtrunc_lower ((t - t0) / dt) (N - K) ltac:(lia) Hs). unfold two63. lia.
-      + apply qtrunc_upper; [lra|assumption]. }
-  unfold bs_select.
-  destruct (Z.ltb_spec (idx_raw false N ((t - t0) / dt)) 0); [lia|].
-  destruct (Z.ltb_spec N (idx_raw false N ((t - t0) / dt) + (K + 1))); [reflexivity|lia].
-Qed.
-
-(* ... and is FALSE of the code as it is beyond that: a concrete witness (K=3, N=8, t0=0, dt=1, t=2^63):
-   the start of the curve is returned instead of the end.  Replayed on the real code by
-   notes/C13-replay-huge-t.cpp and by the `huge_t` stratum of the correspondence run. *)
-Theorem clamp_high_refuted :
-  exists K N t0 dt t,
-    0 < dt /\ (0 <= K)%Z /\ (K + 1 <= N)%Z /\ bs_tmax K N t0 dt <= t /\
-    bs_select false K N t0 dt t = (0%Z, 0) /\ (0%Z, 0) <> ((N - K - 1)%Z, 1).
-Proof.
-  exists 3%Z, 8%Z, 0, 1, (inject_Z two63).
-  repeat split; try (vm_compute; discriminate); try (vm_compute; reflexivity).
-Qed.
+(* the bound on N in clamp_high is sharp for this model: with 2^63 control points the clamp's upper bound itself is
+   outside the int64 range (cannot occur: std::vector<G>::max_size() < 2^63) *)
+Example clamp_high_needs_count_bound :
+  bs_select 3 two63 0 1 (inject_Z two63) = (0%Z, 0).
+Proof. vm_compute. reflexivity. Qed.
 
 (* the window handed to cspline_eval_gs is always inside the control-point vector, and u is in [0,1] *)
-Theorem select_in_range fixed K N t0 dt t :
+Theorem select_in_range K N t0 dt t :
   (0 <= K)%Z -> (K + 1 <= N)%Z ->
-  let '(i, u) := bs_select fixed K N t0 dt t in (0 <= i /\ i + K + 1 <= N)%Z /\ 0 <= u <= 1.
+  let '(i, u) := bs_select K N t0 dt t in (0 <= i /\ i + K + 1 <= N)%Z /\ 0 <= u <= 1.
 Proof.
   intros HK HN. unfold bs_select.
-  destruct (Z.ltb_spec (idx_raw fixed N ((t - t0) / dt)) 0).
+  destruct (Z.ltb_spec (idx_raw N ((t - t0) / dt)) 0).
   - split; [lia|]. split; [apply Qle_refl|discriminate].
-  - destruct (Z.ltb_spec N (idx_raw fixed N ((t - t0) / dt) + (K + 1))).
+  - destruct (Z.ltb_spec N (idx_raw N ((t - t0) / dt) + (K + 1))).
     + split; [lia|]. split; [discriminate|apply Qle_refl].
     + split; [lia|]. rewrite Qred_correct. apply qclamp_range. discriminate.
 Qed.
@@ -260,19 +264,45 @@ Theorem tmax_formula K N t0 dt : bs_tmax K N t0 dt == t0 + (inject_Z N - inject_
 Proof. unfold bs_tmax. unfold Zminus. rewrite inject_Z_plus, inject_Z_opp. ring. Qed.
 
 (* t_max itself is in the clamped region and t_min selects (0,0): the domain is [t_min, t_max] *)
-Corollary tmin_select fixed K N t0 dt :
+Corollary tmin_select K N t0 dt :
   0 < dt -> (0 <= K)%Z -> (K + 1 <= N)%Z -> (N <= two63)%Z ->
-  bs_select fixed K N t0 dt (bs_tmin t0) = (0%Z, 0).
+  bs_select K N t0 dt (bs_tmin t0) = (0%Z, 0).
 Proof.
   intros. apply knot_select; try assumption; [lia|]. unfold bs_tmin. cbn. ring.
 Qed.
 
 (* non-vacuity: the hypotheses are satisfiable by non-trivial states *)
-Example window_spec_ex :
-  bs_select false 3 8 (1 # 2) (1 # 4) (23 # 16) = (3%Z, 3 # 4) /\ bs_select true 3 8 (1 # 2) (1 # 4) (23 # 16) = (3%Z, 3 # 4).
-Proof. vm_compute. split; reflexivity. Qed.
-Example clamp_low_ex : bs_select false 3 8 (1 # 2) (1 # 4) (7 # 16) = (0%Z, 0) /\ (7 # 16) < bs_tmin (1 # 2).
+Example window_spec_ex : bs_select 3 8 (1 # 2) (1 # 4) (23 # 16) = (3%Z, 3 # 4).
+Proof. vm_compute. reflexivity. Qed.
+Example clamp_low_ex : bs_select 3 8 (1 # 2) (1 # 4) (7 # 16) = (0%Z, 0) /\ (7 # 16) < bs_tmin (1 # 2).
 Proof. vm_compute. split; reflexivity. Qed.
 Example clamp_high_ex :
-  bs_select false 3 8 (1 # 2) (1 # 4) (2 # 1) = (4%Z, 1) /\ bs_tmax 3 8 (1 # 2) (1 # 4) <= (2 # 1).
+  bs_select 3 8 (1 # 2) (1 # 4) (2 # 1) = (4%Z, 1) /\ bs_tmax 3 8 (1 # 2) (1 # 4) <= (2 # 1).
 Proof. vm_compute. split; [reflexivity|discriminate]. Qed.
+(* ... and by a quotient at and far beyond 2^63 (the former finding C13-huge-t) *)
+Example clamp_high_huge_ex :
+  bs_select 3 8 0 1 (inject_Z two63) = (4%Z, 1) /\ bs_select 3 8 (1 # 2) (1 # 4) (inject_Z (two63 * two63)) = (4%Z, 1).
+Proof. vm_compute. split; reflexivity. Qed.
+
+(* ------------------------------------------------------------------ historical: the code before 967e2a1
+   Until /repo commit 967e2a1 line 58 read
+       int64_t istar = static_cast<int64_t>((static_cast<double>(t) - m_t0) / m_dt);
+   i.e. the UNclamped quotient was converted.  For (t - t0)/dt >= 2^63 (incl. t = +inf) that conversion is undefined;
+   g++/x86-64 yields INT64_MIN and the START value was returned (finding C13-huge-t, replay notes/C13-replay-huge-t.cpp).
+   Kept as a record of why the clamp has to precede the cast: on the same witness the old selection returns the start,
+   the current one the end.  Not a statement about the current code, not a property theorem. *)
+Definition bs_select_before_967e2a1 (K N : Z) (t0 dt t : Q) : Z * Q :=
+  let istar := cast64 (qtrunc ((t - t0) / dt)) in
+  if (istar <? 0)%Z then (0%Z, 0)
+  else if (N <? istar + (K + 1))%Z then ((N - K - 1)%Z, 1)
+  else (istar, Qred (qclamp ((t - t0 - inject_Z istar * dt) / dt) 0 1)).
+
+Lemma clamp_high_refuted_before_967e2a1 :
+  exists K N t0 dt t,
+    0 < dt /\ (0 <= K)%Z /\ (K + 1 <= N)%Z /\ (N < two63)%Z /\ bs_tmax K N t0 dt <= t /\
+    bs_select_before_967e2a1 K N t0 dt t = (0%Z, 0) /\ (0%Z, 0) <> ((N - K - 1)%Z, 1) /\
+    bs_select K N t0 dt t = ((N - K - 1)%Z, 1).
+Proof.
+  exists 3%Z, 8%Z, 0, 1, (inject_Z two63).
+  repeat split; try (vm_compute; discriminate); try (vm_compute; reflexivity).
+Qed.
